@@ -27,6 +27,23 @@ func (g *gen) newAllocInput(owner *world.Key, data, parity int, size int64, bs [
 	}
 }
 
+// newEntAllocInput: an enterprise allocation on enterprise blobbers; each blobber's auth ticket is its signature
+// of the owner's id.
+func (g *gen) newEntAllocInput(owner *world.Key, data, parity int, size int64, bs []*prov, goodTickets bool) map[string]interface{} {
+	in := g.newAllocInput(owner, data, parity, size, bs)
+	tickets := make([]string, 0, len(bs))
+	for _, b := range bs {
+		if goodTickets {
+			tickets = append(tickets, b.key.Sign(owner.ID))
+		} else {
+			tickets = append(tickets, g.clients[3].Sign(owner.ID))
+		}
+	}
+	in["blobber_auth_tickets"] = tickets
+	in["is_enterprise"] = true
+	return in
+}
+
 func findAlloc(s *storagesc.VerifStorageSnap, id string) *storagesc.VerifStorageAlloc {
 	for i := range s.Allocations {
 		if s.Allocations[i].ID == id {
